@@ -118,7 +118,7 @@ CHECKS = {
          'and weights.',
          'Theorems depend on the standard library real-number axioms (sig_forall_dec, sig_not_dec, '
          'functional_extensionality_dep, classic). arctan2/cos/sin are libm (cos/sin of reported angles taken from '
-         'python math). PARTIAL: left-inverse direction of build_fit_matrix not proved (measured).',
+         'python math). The left-inverse direction (decomposition of a built matrix) is proved too.',
          'DESIGN.md section 6 (C10)'),
  'C11': ('Coq proof about the SPECIFICATION matcher (equals ground truth under unambiguity, partial bijection, indices '
          'in range, no repeats, row-order independent; combined with the half-bin theorem of C12) + correspondence '
